@@ -3,6 +3,7 @@ SIGKILL the child at a chosen gate; the parent judges what is left."""
 
 import json
 import os
+import sqlite3
 import shutil
 import signal
 import time
@@ -68,8 +69,34 @@ def settings_maxlen(settings):
     return None
 
 
+class SqliteRollsBack:
+    """Wraps the active controller for one call: the first row-writing statement fails the way SQLite documents for
+    SQLITE_IOERR / SQLITE_FULL / SQLITE_NOMEM / SQLITE_INTERRUPT - the error is reported AND the transaction has been
+    rolled back by SQLite itself, so the library's own ROLLBACK finds no transaction."""
+
+    def __init__(self, inner):
+        self.inner = inner
+        self.fired = False
+
+    def gate(self, label, info=None):
+        if self.inner is not None:
+            self.inner.gate(label, info)
+        if not self.fired and label in ('pre:INSERT', 'pre:UPDATE', 'pre:DELETE') and info and info[1].in_transaction:
+            self.fired = True
+            info[1].raw_execute('ROLLBACK')
+            raise sqlite3.OperationalError('disk I/O error (injected; SQLite rolled the transaction back)')
+
+
 def apply_op(dc, obj, cache, kind, op, maxlen=None):
     name = op[0]
+    if name == 'io_error':
+        # the wrapped call fails at its first row-writing statement, SQLite having rolled back on its own
+        outer = probe.PROBE.controller
+        probe.set_controller(SqliteRollsBack(outer))
+        try:
+            return apply_op(dc, obj, cache, kind, tuple(op[1]), maxlen)
+        finally:
+            probe.set_controller(outer)
     a = [decode_value(x) for x in op[1:]]
     if kind == 'cache':
         if name == 'set':
